@@ -24,6 +24,9 @@ def is_app_of(t, f) -> bool:
     return z3.is_app(t) and t.decl().eq(f)
 
 
+# optional schema families, switched on per contract (options = {'schemas': [...]})
+EXTRA = set()
+
 _MULS = {}
 _COLLECT = {}     # formula id -> (formula, p2, bls, dms, ipows)
 _AX = {}          # key -> list[(name, axiom)]
@@ -161,6 +164,9 @@ def _ax_dm(t, last, heavy):
         out.append(('DM.def', z3.Implies(k >= 0, z3.And(num == q * den + r, r >= 0, r < den))))
         out.append(('DM.nonneg', z3.Implies(z3.And(k >= 0, num >= 0), z3.And(q >= 0, q <= num))))
         out.append(('DM.small', z3.Implies(z3.And(k >= 0, num >= 0, num < den), z3.And(q == 0, r == num))))
+        if 'DM1' in EXTRA:
+            # DM.one (option 'DM1'): 2^k <= x < 2^(k+1)  ->  x div 2^k == 1  and  x mod 2^k == x - 2^k
+            out.append(('DM.one', z3.Implies(z3.And(k >= 0, num >= den, num < 2 * den), z3.And(q == 1, r == num - den))))
         if z3.is_app(num) and num.decl().kind() == z3.Z3_OP_MUL and num.num_args() == 2:
             for a_, pj in ((num.arg(0), num.arg(1)), (num.arg(1), num.arg(0))):
                 if is_app_of(pj, pow2):
@@ -203,9 +209,6 @@ def _ax_mul(t):
             break
     return out
 
-
-# optional schema families, switched on per contract (options = {'schemas': [...]})
-EXTRA = set()
 
 
 def _mul_parts(t):
@@ -293,9 +296,9 @@ def instantiate(formulas, rounds: int = 2, heavy: bool = True):
             for (j, k) in p2l:
                 emit(('bp', i, j), lambda x=x, k=k: _ax_bp(x, k))
         for i, t in sorted(dms.items()):
-            if ('dm', i, False, heavy) in done:
+            if ('dm', i, False, heavy, 'DM1' in EXTRA) in done:
                 continue
-            emit(('dm', i, last, heavy), lambda t=t: _ax_dm(t, last, heavy))
+            emit(('dm', i, last, heavy, 'DM1' in EXTRA), lambda t=t: _ax_dm(t, last, heavy))
         # pairs of divisions (by pow2) of the same numerator
         divs = [(i, t) for i, t in sorted(dms.items())
                 if t.decl().kind() == z3.Z3_OP_IDIV and is_app_of(t.arg(1), pow2)]
@@ -381,6 +384,8 @@ def selftest_schemas(limit: int = 40) -> dict:
                 bad['S4b'] = (k,)
             if P(k) <= k:
                 bad['P.ge'] = (k,)
+            if P(k) <= x < 2 * P(k) and (x // P(k) != 1 or x % P(k) != x - P(k)):
+                bad['DM.one'] = (x, k)
             for j in range(k, 10):
                 if (x * P(j)) % P(k) != 0:
                     bad['S6'] = (x, j, k)
